@@ -2,13 +2,10 @@ package simnode
 
 import (
 	"crypto/ecdsa"
-	"fmt"
 	"math/big"
 
 	"github.com/golang/protobuf/proto"
 	"github.com/xuperchain/xupercore/bcs/ledger/xledger/state/utxo/txhash"
-	"github.com/xuperchain/xupercore/bcs/ledger/xledger/state/xmodel"
-	txn "github.com/xuperchain/xupercore/bcs/ledger/xledger/tx"
 	pb "github.com/xuperchain/xupercore/bcs/ledger/xledger/xldgpb"
 	"github.com/xuperchain/xupercore/kernel/contract"
 	aclu "github.com/xuperchain/xupercore/kernel/permission/acl/utils"
@@ -171,66 +168,27 @@ type PreExecResult struct {
 	GasUsed     int64
 }
 
-// PreExec mirrors Chain.PreExec of the xuperos engine on a bare state machine
-// (same calls in the same order; the engine-level harness uses the real one).
+// PreExec runs the engine's real Chain.PreExec (kernel/engines/xuperos/chain.go) on this node's
+// ledger, state machine and contract manager (Chain built through the verif export shim).
 func (n *Node) PreExec(reqs []*protos.InvokeRequest, initiator string, authRequire []string) (*PreExecResult, error) {
-	reserved, err := n.State.GetReservedContractRequests(reqs, true)
+	ir, err := n.Chain().PreExec(n.reqCtx(), reqs, initiator, authRequire)
 	if err != nil {
 		return nil, err
 	}
-	transName, transAmount, err := txn.ParseContractTransferRequest(reqs)
-	if err != nil {
-		return nil, err
+	res := &PreExecResult{Inputs: ir.Inputs, Outputs: ir.Outputs, Requests: ir.Requests,
+		UtxoInputs: ir.UtxoInputs, UtxoOutputs: ir.UtxoOutputs, GasUsed: ir.GasUsed}
+	for _, r := range ir.Responses {
+		res.Responses = append(res.Responses, &contract.Response{Status: int(r.Status), Message: r.Message, Body: r.Body})
 	}
-	reqs = append(reserved, reqs...)
-	sb, err := n.Contract.NewStateSandbox(&contract.SandboxConfig{
-		XMReader:   n.State.CreateXMReader(),
-		UTXOReader: n.State.CreateUtxoReader(),
-	})
-	if err != nil {
-		return nil, err
-	}
-	cc := &contract.ContextConfig{State: sb, Initiator: initiator, AuthRequire: authRequire,
-		ResourceLimits: contract.MaxLimits}
-	gasPrice := n.State.GetMeta().GetGasPrice()
-	res := &PreExecResult{}
-	for i, req := range reqs {
-		cc.Module = req.ModuleName
-		cc.ContractName = req.ContractName
-		if transName == req.ContractName {
-			cc.TransferAmount = transAmount.String()
-		} else {
-			cc.TransferAmount = ""
-		}
-		ctx, err := n.Contract.NewContext(cc)
-		if err != nil {
-			return nil, fmt.Errorf("new context: %v", err)
-		}
-		resp, err := ctx.Invoke(req.MethodName, req.Args)
-		if err != nil {
-			ctx.Release()
-			return nil, fmt.Errorf("invoke: %v", err)
-		}
-		used := ctx.ResourceUsed()
-		if i >= len(reserved) {
-			res.GasUsed += used.TotalGas(gasPrice)
-		}
-		r := *req
-		r.ResourceLimits = contract.ToPbLimits(used)
-		res.Requests = append(res.Requests, &r)
-		res.Responses = append(res.Responses, resp)
-		ctx.Release()
-	}
-	if err := sb.Flush(); err != nil {
-		return nil, err
-	}
-	rw := sb.RWSet()
-	u := sb.UTXORWSet()
-	res.Inputs = xmodel.GetTxInputs(rw.RSet)
-	res.Outputs = xmodel.GetTxOutputs(rw.WSet)
-	res.UtxoInputs = u.Rset
-	res.UtxoOutputs = u.WSet
 	return res, nil
+}
+
+// SubmitTx is the engine's real Chain.SubmitTx (duplicate-id cache, VerifyTx, DoTx).
+func (n *Node) SubmitTx(x *pb.Transaction) error {
+	if err := n.Chain().SubmitTx(n.reqCtx(), x); err != nil {
+		return err
+	}
+	return nil
 }
 
 // VerifReq builds an invoke request for the harness contract.
